@@ -29,11 +29,11 @@ def universe():
     global _UNIVERSE
     if _UNIVERSE is None:
         recs, plain, dup = c04.record_alphabet()
-        out = [[r] for r in recs]
+        out = [[]] + [[r] for r in recs]
         out += [[a, b] for a, b in it.combinations(recs, 2) if Model([a, b]).valid()]
         out += [[mrec("a", "x", (), (), "^1$")], [mrec("A", "X", ("a",), (), "^2$")], [mrec("b", "xy", (), ("x",), "^3$"), mrec("a", "X")]]
         # case variants whose spellings differ in length (casefold: "ß" -> "ss", "ﬁ" -> "fi")
-        out += [[mrec("ß", "u1")], [mrec("SS", "u2")], [mrec("ss", "u3", ("k",))], [mrec("k1", "http://ﬁ/")], [mrec("k2", "http://FI/")], [mrec("ß", "u4"), mrec("SS", "u5")]]
+        out += [[mrec("ß", "u1")], [mrec("SS", "u2")], [mrec("ss", "u3", ("k",))], [mrec("k1", "http://ﬁ/")], [mrec("k2", "http://FI/")], [mrec("ß", "u4"), mrec("SS", "u5")], [mrec("k3", "u6", ("SS",))], [mrec("k4", "u7", ("ß",), ("http://ﬁ/x",))], [mrec("k5", "u8", (), ("http://FI/x",))]]
         _UNIVERSE = out
     return _UNIVERSE
 
@@ -47,7 +47,7 @@ def units(tier, seed):
     n = len(universe())
     us = [{"kind": "pairs", "first": ch} for ch in chunks(list(range(n)), 64)]
     if tier == "thorough":
-        us += [{"kind": "triples", "first": ch} for ch in chunks(list(range(81)), 81)]
+        us += [{"kind": "triples", "first": ch} for ch in chunks(list(range(1, 82)), 81)]
     us += [{"kind": "sub-c04", "idx": ch} for ch in chunks(list(range(n)), 8)]
     ncfg = len(joint.configurations("quick" if tier == "quick" else "quick"))
     us += [{"kind": "sub-joint", "idx": ch, "tier": "quick"} for ch in chunks(list(range(ncfg)), 48)]
@@ -126,6 +126,8 @@ def check_chain(seq_json, cs, ctx=None):
                 fails.append(("sub-of-chained/answers-differ-from-parent", f"{where}.get_subconverter([{p!r}]): expand({p + ':1'!r})"))
         if ctx is not None:
             ctx.count("subconverters_of_chained")
+    if any(res is c for c in convs):
+        fails.append(("chain/returns-one-of-its-inputs", f"{where}: the result is an input object itself"))
     if len(seqs) == 1 and cs:
         if record_set(res) != record_set(convs[0]) or observe(res, QS, QP) != observe(convs[0], QS, QP):
             fails.append(("chain/singleton-chain-not-equivalent", f"{where}: chain([c]) differs from c"))
@@ -205,8 +207,8 @@ def run_unit(unit, ctx):
             ctx.sample({"kind": "chain", "seq": [recs_to_json(U[i]), recs_to_json(U[-1])], "cs": False})
     elif kind == "triples":
         for i in unit["first"]:
-            for j in range(81):
-                for k in range(81):
+            for j in range(1, 82):
+                for k in range(1, 82):
                     for cs in (True, False):
                         case = {"kind": "chain", "seq": [recs_to_json(U[i]), recs_to_json(U[j]), recs_to_json(U[k])], "cs": cs}
                         for sig, msg in check_chain(case["seq"], cs, ctx)[:2]:
